@@ -34,9 +34,18 @@ class Sample:
         self.log_likelihood = log_likelihood
         self.log_prior = log_prior
         self.weight = weight
+        kwargs = kwargs or dict()
+        # If any key is a path (a tuple, or a dotted string as written to samples.csv
+        # and samples_summary.json) then every string key is a path, including
+        # single-name ones: otherwise a model mixing parameters held directly by the
+        # top-level model with nested ones cannot be looked up after a reload.
+        is_paths = any(
+            isinstance(key, tuple) or (isinstance(key, str) and "." in key)
+            for key in kwargs
+        )
         self.kwargs = {
-            tuple(key.split(".")) if isinstance(key, str) and "." in key else key: value
-            for key, value in (kwargs or dict()).items()
+            tuple(key.split(".")) if isinstance(key, str) and is_paths else key: value
+            for key, value in kwargs.items()
         }
 
     def dict(self):
